@@ -97,6 +97,43 @@ def escapeLoop (fx : Fixes) : Nat → Bool → Bytes → Except RwErr Bytes
     else
       (escapeLoop fx brack false rest).map (c :: ·)
 
+/-! ### pass 1 with the translation of XSD multi-character escapes (fixes/F182.diff, fixes/F183.diff) -/
+
+/-- `lys_compile_pattern_xmlschema_mce`: the class members of the first row whose escape character is `c` -/
+def mceLookup (tbl : List (UInt8 × Bytes)) (c : UInt8) : Option Bytes :=
+  (tbl.find? fun e => e.1 = c).map (·.2)
+
+/-- the text an escape is replaced with: a class of its own at bracket depth 0, only the members inside a class -/
+def mceText (brack : Nat) (members : Bytes) : Bytes :=
+  if brack = 0 then bOpen :: (members ++ [bClose]) else members
+
+/-- The loop with `if (escaped && (members = lys_compile_pattern_xmlschema_mce(orig_ptr[0]))) { --idx; … continue; }` in
+    front of the `switch`.  The C code overwrites the backslash it copied one round earlier (`--idx`); in the model a
+    backslash that sets `escaped` is written one round later (`pre`), unless that round replaces the escape.  With an
+    empty table (the source before the repair) this is `escapeLoop` (`escapeLoopM_nil`). -/
+def escapeLoopM (tbl : List (UInt8 × Bytes)) (fx : Fixes) : Nat → Bool → Bytes → Except RwErr Bytes
+  | _, escaped, [] => .ok (if escaped then [bBackslash] else [])
+  | brack, escaped, c :: rest =>
+    let pre : Bytes := if escaped then [bBackslash] else []
+    match (if escaped then mceLookup tbl c else Option.none) with
+    | some m => (escapeLoopM tbl fx brack false rest).map (fun t => mceText brack m ++ t)
+    | Option.none =>
+      if c = bBackslash then
+        if escaped then (escapeLoopM tbl fx brack false rest).map (fun t => pre ++ c :: t)
+        else escapeLoopM tbl fx brack true rest
+      else if c = bDollar ∨ c = bCaret then
+        if brack = 0 ∧ ¬(fx.f25 = true ∧ escaped = true) then
+          (escapeLoopM tbl fx brack false rest).map (fun t => pre ++ bBackslash :: c :: t)
+        else
+          (escapeLoopM tbl fx brack false rest).map (fun t => pre ++ c :: t)
+      else if c = bOpen then
+        (escapeLoopM tbl fx (if escaped then brack else brack + 1) false rest).map (fun t => pre ++ c :: t)
+      else if c = bClose then
+        if brack = 0 ∧ escaped = false then .error .strayBracket
+        else (escapeLoopM tbl fx (if escaped then brack else brack - 1) false rest).map (fun t => pre ++ c :: t)
+      else
+        (escapeLoopM tbl fx brack false rest).map (fun t => pre ++ c :: t)
+
 /-! ### pass 2 -/
 
 /-- `strstr`: offset of the first occurrence -/
@@ -206,6 +243,13 @@ def cstr (p : Bytes) : Bytes := p.takeWhile (· ≠ 0)
 /-- the text `lys_compile_type_pattern_check` passes to `pcre2_compile` -/
 def rewriteWith (fx : Fixes) (pattern : Bytes) : Except RwErr Bytes :=
   match escapeLoop fx 0 false (cstr pattern) with
+  | .error e => .error e
+  | .ok t => chblocks fx t
+
+/-- the same with the multi-character escape table `mce` (`Generated.UBlocks.mceTable`: what the source has now; empty
+    before fixes/F182.diff) -/
+def rewriteWithM (mce : List (UInt8 × Bytes)) (fx : Fixes) (pattern : Bytes) : Except RwErr Bytes :=
+  match escapeLoopM mce fx 0 false (cstr pattern) with
   | .error e => .error e
   | .ok t => chblocks fx t
 
